@@ -8,8 +8,10 @@ cd /verif
 id="$1"; tier="${2:-quick}"; shift; shift || true
 lc=$(echo "$id" | tr 'A-Z' 'a-z')
 mkdir -p build/bin evidence replays
-cp /repo/go.sum go.sum 2>/dev/null
-python3 tools/mkoverlay.py > build/overlay.json || exit 2
+# atomic updates: several checks may be started at the same time
+cmp -s /repo/go.sum go.sum || { cp /repo/go.sum "go.sum.$$" && mv "go.sum.$$" go.sum; }
+python3 tools/mkoverlay.py > "build/overlay.$$.json" || exit 2
+mv "build/overlay.$$.json" build/overlay.json
 if [ -x "checks/$lc/prebuild.sh" ]; then "checks/$lc/prebuild.sh" "$tier" || exit 2; fi
 if ! go build -tags verif -overlay build/overlay.json -o "build/bin/$lc" "./checks/$lc" 2> "build/$lc.build.log"; then
   # white-box accessors may stop compiling after a refactor of /repo: retry black-box only
